@@ -43,7 +43,7 @@ func TestVerif_C17_body(t *testing.T) {
 	s := verifh.New(t, "C17", "body",
 		"request configurations: method from GET/HEAD/OPTIONS/POST/PUT/PATCH/DELETE/TRACE/get with AllowGetMethodPayload on/off; body description = none | raw bytes (text, JSON-looking, binary, empty) | value to marshal (struct, map, slice; unmarshallable value) | plain form | ordered form (odd counts too) | combinations; forced multipart with/without a file; Content-Type preset at client and/or request level from {json, xml, soap+xml, text/plain, upper-case XML}; real parseRequestHeader+parseRequestBody; oracle: forbidden methods carry nothing, marshalled bodies decode to the supplied value under a matching type, raw bodies are unchanged; non-trivial = a body was produced")
 	r := s.Rand()
-	n := verifh.N(2500, 80000)
+	n := verifh.N(4000, 80000)
 	methods := []string{"GET", "HEAD", "OPTIONS", "POST", "PUT", "PATCH", "DELETE", "TRACE", "get"}
 	cts := []string{"", "", "application/json", "text/xml", "application/xml; charset=utf-8", "application/soap+xml", "text/plain", "TEXT/XML", "application/vnd.x+json"}
 	for i := 0; i < n; i++ {
